@@ -6,7 +6,7 @@
 (* A scope is a record [par, v, t, x]: parent handle (0 = none), value     *)
 (* table, type table, "has external lookup".  Handles are indices into the *)
 (* sequence `sc` (Go side: the i-th *env.Env the harness obtained).        *)
-(* Value tokens: 1..99 plain values (3 is the addressable one, 5 is nil),  *)
+(* Value tokens: 1..99 plain values (3 is the addressable one, 90 is nil),  *)
 (* 100+i = the scope with handle i (a module).  Type tokens: small ints;   *)
 (* 50.. = built-in type names.  Every operation is a function              *)
 (*        (sc, args) -> [sc |-> sc', res |-> R]                            *)
@@ -32,9 +32,9 @@ SymsR(S) == R("syms", 0, S)
 EnvRef(h)  == 100 + h
 IsRef(v)   == v >= 100
 RefId(v)   == v - 100
-\* 3 is a value the host hands over in addressable storage; 5 is nil, which the package keeps in ONE addressable cell of its own
+\* 3 is a value the host hands over in addressable storage; 90 is nil, which the package keeps in ONE addressable cell of its own
 \* (env.NilValue) -- Define(n, nil), DefineValue(n, reflect.ValueOf(nil)) and DefineValue(n, env.NilValue) all bind that cell
-Addressable(v) == v \in {3, 5}
+Addressable(v) == v \in {3, 90}
 
 \* va / ta: the scope's value / type table has been allocated (tables are created lazily by the first define and stay allocated
 \* when emptied again; a copy has a table exactly where its source has one).  Not observable through the API -- the projection
